@@ -48,6 +48,10 @@ fn c09_scenarios(tier: Tier) -> Vec<Scenario> {
         mk("n1n5/PPPk4/8/8/8/8/4Kppp/5N1N b - - 0 1", &[], 3),
         mk("8/2p5/3p4/KP5r/1R3p1k/8/4P1P1/8 w - - 0 1", &[], 4),
         mk("8/8/8/4k3/8/8/3Q4/4K3 b - - 0 1", &[], 4),
+        // histories in which a position already occurred twice: a root move completes the third
+        // occurrence, so the repetition bookkeeping (hashes of game + line) decides the root value
+        mk("r5k1/8/8/8/8/8/8/R2Q2K1 w - - 0 1", &["a1b1", "a8b8", "b1a1", "b8a8", "a1b1", "a8b8", "b1a1"], 3),
+        mk("rnbqkbnr/pppppppp/8/8/8/8/PPPPPPPP/RNBQKBNR w KQkq - 0 1", &["g1f3", "g8f6", "f3g1", "f6g8", "g1f3", "g8f6", "f3g1"], 3),
     ];
     if tier == Tier::Thorough {
         v.extend(vec![
